@@ -252,11 +252,40 @@ const ATTR_NAMES_UNI: &[&str] = &["A", "B", "C", "L", "T", "N", "é", "日本", 
 
 impl World {
     pub fn new(p: Profile, replay: Value) -> Option<Self> {
+        Self::with_tracers(p, replay, 0, 0)
+    }
+
+    /// `extra` > 0: the history runs on a master key with that many more tracers than `setup`
+    /// creates (tracing level 2, 3): (t, t·G) pairs appended through the wire writer before any
+    /// key exists, then read back with `MasterSecretKey::deserialize`.
+    pub fn with_tracers(p: Profile, replay: Value, extra: usize, seed: u64) -> Option<Self> {
         let cc = Covercrypt::default();
-        let (msk, mpk) = match call(|| cc.setup()) {
+        let (mut msk, mut mpk) = match call(|| cc.setup()) {
             Out::Ok(x) => x,
             _ => return None,
         };
+        let mut crafted = 0;
+        if extra > 0 {
+            let mut rng = crate::rng::Rng::new(seed ^ 0x7ace_7ace);
+            let m2 = ser(&msk).ok().and_then(|b| WMsk::parse(&b).ok()).and_then(|mut w| {
+                for _ in 0..extra {
+                    let mut t = rng.bytes(32);
+                    t[0] = 0;
+                    t[31] = 0;
+                    t[15] |= 1;
+                    let pt = crate::arith::base_mul(&t)?;
+                    w.tracers.push((t, pt));
+                }
+                de::<MasterSecretKey>(&w.write()).ok()
+            });
+            if let Some(m2) = m2 {
+                if let Out::Ok(k2) = call(|| m2.mpk()) {
+                    msk = m2;
+                    mpk = k2;
+                    crafted = extra;
+                }
+            }
+        }
         let mut mskm = MskM::default();
         mskm.update().ok()?;
         let mpkm = mskm.mpk();
@@ -280,6 +309,7 @@ impl World {
             last_update_failed_born_disabled: false,
             struct_shape: String::new(),
         };
+        w.stats.bump(&format!("histories_with_{}_tracers", 2 + crafted));
         w.after_msk_change("setup");
         Some(w)
     }
@@ -1882,8 +1912,21 @@ impl World {
                                             Some(x)
                                         }
                                     } else {
-                                        self.stats.bump("roundtrips_ok");
-                                        Some(x)
+                                        // independent of the crate's own `==`: the copy serializes to the
+                                        // same content (compared field by field by the wire reader, in an
+                                        // order-independent form where hash maps are involved)
+                                        let again = ser(&x).ok().and_then(|b2| wire_canon($name, &b2));
+                                        if again.is_none() || again != wire_canon($name, &b) {
+                                            self.finding(
+                                                "C13",
+                                                format!("roundtrip-copy-serializes-differently:{}", $name),
+                                                format!("x == deserialize(serialize(x)) holds for the crate's PartialEq, but the copy does not serialize to the same content ({} bytes)", b.len()),
+                                            );
+                                            None
+                                        } else {
+                                            self.stats.bump("roundtrips_ok");
+                                            Some(x)
+                                        }
                                     }
                                 }
                                 o => {
@@ -1946,6 +1989,16 @@ impl World {
 // -------------------------------------------------------------------------------------------------
 // history generation
 // -------------------------------------------------------------------------------------------------
+
+/// Order-independent rendering of a serialized object by the independent wire reader.
+fn wire_canon(kind: &str, b: &[u8]) -> Option<String> {
+    match kind {
+        "msk" => WMsk::parse(b).ok().map(|w| format!("{:?}", w.canonical())),
+        "mpk" => WMpk::parse(b).ok().map(|w| format!("{:?}", w.canonical())),
+        "structure" => WStruct::parse(b).ok().map(|w| format!("{:?}", w.canonical())),
+        _ => Some(wire::hex(b)),
+    }
+}
 
 fn has_dup_clause(pol: &Pol) -> bool {
     pol.dnf().iter().any(|c| {
@@ -2351,7 +2404,13 @@ impl Gen {
 pub fn run_history(profile: &Profile, seed: u64, config: &str) -> Option<World> {
     let mut g = Gen { rng: Rng::new(seed) };
     let replay = json!({"kind": "history", "property": profile.prop, "profile": profile.name, "seed": seed, "config": config});
-    let mut w = World::new(profile.clone(), replay)?;
+    // one history in five runs at tracing level 2 or 3
+    let extra = match seed % 10 {
+        3 => 1,
+        7 => 2,
+        _ => 0,
+    };
+    let mut w = World::with_tracers(profile.clone(), replay, extra, seed)?;
     for op in g.initial_structure(profile) {
         w.step(&op);
     }
